@@ -150,24 +150,29 @@ def run(ctx):
     # ---- 2. build (phase A) and run (phase B) in worker processes
     cdir = ctx.scratch / "cases"
     cdir.mkdir()
-    extra_job = {"seed": ctx.seed, "thorough": ctx.thorough}
-    (ctx.scratch / "extra.json").write_text(json.dumps(extra_job))
-    shards = [cases[i::NWORK] for i in range(NWORK)]
     t0 = time.time()
-    built = _pool("build", shards, ctx, cdir)
-    cases = sorted((c for sh in built for c in sh), key=lambda c: c["id"])
-    bad = [c for c in cases if c.get("selfcheck") != "ok"]
-    if bad:
-        raise MachineryError(f"concretiser self-check failed for {len(bad)} cases, e.g. {bad[0]['c']} -> {bad[0].get('selfcheck')}")
-    ctx.log(f"built {len(cases)} artefacts in {time.time() - t0:.1f}s")
-    t0 = time.time()
-    shards = [cases[i::NWORK] for i in range(NWORK)]
-    ran = _pool("run", shards, ctx, cdir)
-    traces = sorted((t for sh in ran for t in sh), key=lambda t: t["id"])
-    ctx.log(f"ran {len(traces)} extractions in {time.time() - t0:.1f}s")
-
-    # ---- 3. fixtures (code -> spec)
-    fx = _run_single("fixtures", ctx, cdir)
+    with ThreadPoolExecutor(1) as bg:
+        f_fx = bg.submit(_pool, "fixtures", [[{"seed": ctx.seed, "thorough": ctx.thorough, "part": i, "parts": 3}]
+                                              for i in range(3)], ctx, cdir, 3)       # ---- 3. fixtures (code -> spec)
+        built = _pool("build", [cases[i::NWORK] for i in range(NWORK)], ctx, cdir)
+        cases = sorted((c for sh in built for c in sh), key=lambda c: c["id"])
+        bad = [c for c in cases if c.get("selfcheck") != "ok"]
+        if bad:
+            raise MachineryError(f"concretiser self-check failed for {len(bad)} cases, e.g. {bad[0]['c']} -> {bad[0].get('selfcheck')}")
+        ctx.log(f"built {len(cases)} artefacts in {time.time() - t0:.1f}s")
+        t0 = time.time()
+        ran = _pool("run", _shards(cases), ctx, cdir)
+        traces = sorted((t for sh in ran for t in sh), key=lambda t: t["id"])
+        ctx.log(f"ran {len(traces)} extractions in {time.time() - t0:.1f}s")
+        if os.environ.get("C08_TIMING"):
+            agg = {}
+            for t in traces:
+                if t["hdr"]["entry"] == "direct":
+                    a = agg.setdefault(t["hdr"]["c"]["kind"], [0, 0.0])
+                    a[0] += 1
+                    a[1] += t["meta"]["dt"]
+            ctx.log("cpu per kind: " + ", ".join(f"{k2}: {n} cases {s2:.1f}s" for k2, (n, s2) in sorted(agg.items())))
+        fx = [t for part in f_fx.result() for t in part]
     n_named = sum(1 for t in fx if t["ev"][0].get("named"))
     if n_named < 10 * len(ENTRIES):
         raise MachineryError(f"only {n_named} protected-fixture traces found (expected >= 30): fixtures moved?")
@@ -175,21 +180,28 @@ def run(ctx):
 
     # ---- 4. validation by TLC
     tr_cfg = "SPECIFICATION TraceSpec\nCONSTANT Deviations = {}\nCONSTRAINT TraceAccept\n"
-    br = validate("EncryptionTrace", tr_cfg, traces, scratch=ctx.scratch, parallel=12, min_chunk=300, diagnose=40)
+    br = validate("EncryptionTrace", tr_cfg, traces, scratch=ctx.scratch, parallel=12, min_chunk=300, diagnose=6)
     ev.tlc_counts("EncryptionTrace: recorded extractions validated", br.distinct, br.states, br.wall_s)
-    seen = set()
+    groups = {}
     for t, tv in zip(traces, br.verdicts):
         if tv.accepted:
             v.ok(1)
             continue
+        # first event TLC refused (undiagnosed traces: the last event, which carries the outcome)
         e = t["ev"][tv.reached] if 0 <= tv.reached < len(t["ev"]) else t["ev"][-1]
-        key = (json.dumps(t["hdr"]["c"], sort_keys=True), t["hdr"]["entry"], t["meta"].get("ext"), json.dumps(e, sort_keys=True))
-        if key in seen:
-            continue
-        seen.add(key)
-        v.violation(what=_explain(t, e), case={"container": t["hdr"]["c"], "entry": t["hdr"]["entry"], **t["meta"]},
+        what = _explain(t, e)
+        g = groups.setdefault(what.split(" (via")[0], {"n": 0, "ex": [], "t": t, "e": e, "what": what})
+        g["n"] += 1
+        if len(g["ex"]) < 4:
+            g["ex"].append({"container": t["hdr"]["c"] if len(json.dumps(t["hdr"]["c"])) < 600 else "(large)",
+                            "entry": t["hdr"]["entry"], **t["meta"], "events": t["ev"]})
+    for key in sorted(groups):
+        g = groups[key]
+        t = g["t"]
+        v.violation(what=f"{g['what']} -- {g['n']} traces rejected by EncryptionTrace",
+                    case={"examples": g["ex"]},
                     expected=f"class {t['meta'].get('cls', '?')} per Encryption.tla: MUST -> ExtractionFileEncryptedError "
-                             f"before any result; MUSTNOT -> never ExtractionFileEncryptedError",
+                             f"before any result, through every entry point; MUSTNOT -> never ExtractionFileEncryptedError",
                     observed=t["ev"], where=_where(t["hdr"]["c"]["kind"]))
     ev.replayed(len(traces))
     for t in traces:
@@ -219,14 +231,14 @@ def _explain(t, e):
     cls = t["meta"].get("cls", "?")
     a = e.get("a")
     if a == "Detect":
-        return f"{c['kind']} detector returned {e.get('v')} for a {cls} container ({t['hdr']['entry']})"
+        return f"{c['kind']} detector returned {e.get('v')} for a {cls} container (via {t['hdr']['entry']})"
     if a == "Yield":
-        return f"{c['kind']}: a result was yielded for a {cls} container / after a positive detector verdict ({t['hdr']['entry']})"
+        return f"{c['kind']}: a result was yielded for a {cls} container / after a positive detector verdict (via {t['hdr']['entry']})"
     if a == "Raise":
-        return (f"{c['kind']}: error class {e.get('cls')} ({e.get('name')}) for a {cls} container via {t['hdr']['entry']} "
-                f"(exit={e.get('exit')}, stdout={e.get('out')})")
+        return (f"{c['kind']}: error class {e.get('cls')} ({e.get('name')}) for a {cls} container "
+                f"(via {t['hdr']['entry']}, exit={e.get('exit')}, stdout={e.get('out')})")
     if a == "End":
-        return f"{c['kind']}: extraction of a {cls} container ended normally via {t['hdr']['entry']} (same-as-plain={e.get('same')})"
+        return f"{c['kind']}: extraction of a {cls} container ended normally, same-as-plain={e.get('same')} (via {t['hdr']['entry']})"
     if a == "Fixture":
         return f"fixture {t['meta'].get('file')} named protected={e.get('named')} but its projection is classified differently"
     return f"{c['kind']}: unexpected event {e}"
@@ -241,26 +253,28 @@ def _where(kind):
             "epub": "epub_extractor.py:_is_epub_encrypted"}.get(kind, "")
 
 
-def _pool(mode, shards, ctx, cdir):
-    procs = []
-    for i, sh in enumerate(shards):
+def _pool(mode, shards, ctx, cdir, maxpar=14):
+    """One fresh interpreter per shard (at most `maxpar` at a time); returns the shards' outputs in order."""
+    def one(i_sh):
+        i, sh = i_sh
         inp = ctx.scratch / f"{mode}-in-{i}.json"
         out = ctx.scratch / f"{mode}-out-{i}.json"
         inp.write_text(json.dumps(sh))
-        procs.append((out, subprocess.Popen([PY, "-m", "mbv.props.c08", mode, str(inp), str(out), str(cdir)],
-                                            env=child_env(), cwd=str(VERIF), stdout=subprocess.PIPE,
-                                            stderr=subprocess.PIPE, text=True)))
-    res = []
-    for out, p in procs:
-        so, se = p.communicate(timeout=3000)
+        p = subprocess.run([PY, "-m", "mbv.props.c08", mode, str(inp), str(out), str(cdir)], env=child_env(),
+                           cwd=str(VERIF), capture_output=True, text=True, timeout=3000)
         if p.returncode != 0:
-            raise MachineryError(f"c08 {mode} worker failed:\n{se[-3000:]}")
-        res.append(json.loads(out.read_text()))
-    return res
+            raise MachineryError(f"c08 {mode} worker failed:\n{p.stderr[-3000:]}")
+        return json.loads(out.read_text())
+    with ThreadPoolExecutor(maxpar) as ex:
+        return list(ex.map(one, list(enumerate(shards))))
 
 
-def _run_single(mode, ctx, cdir):
-    return _pool(mode, [[{"seed": ctx.seed, "thorough": ctx.thorough}]], ctx, cdir)[0]
+def _shards(cases):
+    """PDF cases one per process: whether pypdf's AES fallback is already patched in is process history, and the
+    property speaks about a single extraction (C15 covers histories); everything else in NWORK shards."""
+    pdf = [c for c in cases if c["c"]["kind"] == "pdf"]
+    rest = [c for c in cases if c["c"]["kind"] != "pdf"]
+    return [[c] for c in pdf] + [sh for sh in (rest[i::NWORK] for i in range(NWORK)) if sh]
 
 
 # =========================================================================== workers
@@ -383,7 +397,19 @@ def _extractor_for(ext):
     return getattr(importlib.import_module(mod), name)
 
 
-def _observe(path, ext, kind, rec, Enc, same_fn=None):
+def _cli_stdout(cli, path):
+    import contextlib
+    import io
+    so, se = io.StringIO(), io.StringIO()
+    with contextlib.redirect_stdout(so), contextlib.redirect_stderr(se):
+        try:
+            code = cli.main([str(path)])
+        except SystemExit as e:
+            code = e.code if isinstance(e.code, int) else 1
+    return code, so.getvalue()
+
+
+def _observe(path, ext, kind, rec, Enc, same_fn=None, plain_path=None):
     """Run one file through the three entry points; returns {entry: events}."""
     import contextlib
     import io
@@ -444,7 +470,11 @@ def _observe(path, ext, kind, rec, Enc, same_fn=None):
         e = seen["exc"]
         evs.append({"a": "Raise", "cls": _cls(e, Enc), "name": type(e).__name__, "exit": int(code), "out": outk})
     else:
-        evs.append({"a": "End", "same": "n/a", "exit": int(code), "out": outk})
+        same = "n/a"
+        if plain_path is not None:       # the CLI prints the full text: compare with what it prints for the original
+            pcode, ptext = _cli_stdout(cli, plain_path)
+            same = "yes" if (pcode == 0 and code == 0 and ptext == so.getvalue() and ptext.strip()) else "no"
+        evs.append({"a": "End", "same": same, "exit": int(code), "out": outk})
     out["cli"] = evs
     rec.events = None
     return out
@@ -472,19 +502,22 @@ def _worker_run(inp, out, cdir):
     traces = []
     for case in cases:
         c, ext, path = case["c"], case["ext"], case["file"]
-        same_fn = None
+        same_fn = plain_path = None
         if c["kind"] == "pdf" and c["alg"] != "none" and c["userEmpty"]:
-            plain = (Path(path).parent / "plain.pdf").read_bytes()
+            plain_path = Path(path).parent / "plain.pdf"
+            plain = plain_path.read_bytes()
             enc = Path(path).read_bytes()
 
             def same_fn(plain=plain, enc=enc):
                 a = docrun.observe({"fmt": "pdf", "data": plain, "path": "gen.pdf"})
                 b = docrun.observe({"fmt": "pdf", "data": enc, "path": "gen.pdf"})
                 return "yes" if a == b and "exc" not in a else "no"
-        obs = _observe(path, ext, c["kind"], rec, Enc, same_fn)
+        t0 = time.time()
+        obs = _observe(path, ext, c["kind"], rec, Enc, same_fn, plain_path)
+        dt = round(time.time() - t0, 3)
         for entry in ENTRIES:
             traces.append({"id": f"{case['id']}:{entry}", "hdr": {"c": c, "entry": entry}, "ev": obs[entry],
-                           "meta": {"ext": ext, "cls": case["cls"], "file": os.path.basename(path)}})
+                           "meta": {"ext": ext, "cls": case["cls"], "file": os.path.basename(path), "dt": dt}})
     Path(out).write_text(json.dumps(traces))
 
 
@@ -500,8 +533,9 @@ def _worker_fixtures(inp, out, cdir):
         raise RuntimeError(f"fixtures vanished: only {len(files)} files under {res_dir}")
     traces = []
     from sharepoint2text.parsing.router import is_supported_file
-    for p in files:
-        if not is_supported_file(str(p)):
+    part, parts = job.get("part", 0), job.get("parts", 1)
+    for n, p in enumerate(files):
+        if n % parts != part or not is_supported_file(str(p)):
             continue
         named = any(w in p.name.lower() for w in ("password", "protected", "encrypted"))
         c = B.project_fixture(p, named)
@@ -519,7 +553,7 @@ def _worker_fixtures(inp, out, cdir):
     # FILEPASS inserted into the real workbook streams of the fixtures, at many record positions
     d = Path(cdir) / "xlsreal"
     d.mkdir(exist_ok=True)
-    for rel, npos in (("legacy_ms/mwe.xls", 24 if job["thorough"] else 8), ("legacy_ms/xls_with_images.xls", 10 if job["thorough"] else 3)):
+    for rel, npos in [] if part != 0 else (("legacy_ms/mwe.xls", 24 if job["thorough"] else 8), ("legacy_ms/xls_with_images.xls", 10 if job["thorough"] else 3)):
         _, nrec = B.xls_insertions(rel, [], rng)
         pos = sorted({0, 1, 2, nrec - 1, nrec} | {rng.randrange(nrec + 1) for _ in range(npos)})
         for ovr in (False, True):
